@@ -207,7 +207,7 @@ def narrowing_polarity(rep, fb, f, eng):
                 if names and names[0] in ('_compatible', '_conflicting') and n['id'] in cfgm.CFG(f).pos:
                     assigns[n['id']] = n['c'][2]
                     kinds[n['id']] = names[0]
-    rep.minimum('R01.14', len(assigns), 4, 'assignments to _compatible / _conflicting bits in ' + eng)
+    rep.minimum('R01.14', len(assigns), 2, 'assignments to _compatible / _conflicting bits in ' + eng)
     # loop headers reset the per-element facts
     reset_ids = set()
     for lp in f.walk():
@@ -233,6 +233,28 @@ def narrowing_polarity(rep, fb, f, eng):
             why = 'only sets bits (union)' if ok else 'CLEARS a conflict bit while transitions are being added'
         rep.check(ok, 'R01.14', '%s|%s#%d' % (eng, kinds[nid], sum(1 for k2 in assigns if kinds[k2] == kinds[nid] and f.nodes[k2]['loc'][1] < n['loc'][1])), locstr(n),
                   '`%s`: %s' % (fb.text(n)[:60], why))
+    # the union with a transition's compatible list is only right for the first selected transition; afterwards the set must narrow
+    from ._skel import guarded_by
+    from .C08 import edge_dominates
+    g0 = cfgm.CFG(f)
+    narrowing = [nid for nid in assigns if kinds[nid] == '_compatible' and any(not v for v, _ in pos[nid])]
+    rep.check(bool(narrowing), 'R01.14', eng + '|compatible set narrows', f.where(), 'assignments that can clear a bit of _compatible: %d%s' % (
+        len(narrowing), '' if narrowing else ' -- the set of compatible transitions only grows: a transition that conflicts with the second selected one but is compatible with the first is still taken'))
+    for nid in sorted(assigns):
+        if kinds[nid] != '_compatible' or not any(v for v, _ in pos[nid]) or any(not v for v, _ in pos[nid]):
+            continue          # only plain `= true` stores
+        n = f.nodes[nid]
+        tb = g0.pos[nid][0]
+        first_only = False
+        for bid, b in g0.blocks.items():
+            c = b.get('cond')
+            if c is None or c not in f.nodes:
+                continue
+            if any(x['k'] == 'MemberExpr' and x['ref'].get('name') == '_flags' for x in sub(f.nodes[c])) and any(any(m[0] == 'USCXML_CTX_TRANSITION_FOUND' for m in (x.get('mac') or [])) for x in sub(f.nodes[c])):
+                if edge_dominates(g0, bid, False, tb):
+                    first_only = True
+        rep.check(first_only, 'R01.14', '%s|_compatible set only for the first selection#%d' % (eng, sum(1 for k2 in assigns if f.nodes[k2]['loc'][1] < n['loc'][1])), locstr(n),
+                  '`%s` %s' % (fb.text(n)[:50], 'happens only while no transition has been selected in this step' if first_only else 'is NOT restricted to the first selected transition: later selections widen the compatible set instead of narrowing it'))
 
 
 def run(rep, tier):
